@@ -223,6 +223,7 @@ class Func:
         self.notes = []
         self.writes_registered = []   # names written through set_var inside the body
         self.calls = []         # cnames of member functions called
+        self.statics = []       # rule SLs: [(global name, type, source name, depends-on)]
 
 
 def find_functions(src_text, cls):
@@ -297,7 +298,7 @@ def msg_class(strings):
     return c
 
 
-def rewrite_body(body, cls, decl, fname, args, all_method_cnames, extra_ids=(), ghost_capture=()):
+def rewrite_body(body, cls, decl, fname, args, all_method_cnames, extra_ids=(), ghost_capture=(), mutable=None, statics_out=None):
     """apply the rule table to one function body; returns (c_text, hits, notes, writes, calls)"""
     hits = {}
     notes = []
@@ -701,6 +702,70 @@ def rewrite_body(body, cls, decl, fname, args, all_method_cnames, extra_ids=(), 
             continue
         i += 1
 
+    # ---- rule SL: function-local statics.  C++: the initialiser runs once per process, on the first execution of the declaration,
+    # and the object is shared by every instance of the class.
+    #  SLc  initialiser mentions no argument, local, mutable member or member function: the value is the same in every call ->
+    #       `static` dropped, an ordinary (re-initialised) local; nothing is assumed or lost.
+    #  SLs  anything else: the variable is PERSISTENT STATE initialised in the state of the first call.  It becomes two file-scope
+    #       objects <fn>__<v> / <fn>__<v>__init (both arbitrary on entry under --nondet-static: "an earlier call in this process may
+    #       have initialised it, in any state") and the declaration becomes `if (!init) { v = <initialiser>; init = 1; }`.
+    if any(v == 'static' for _, v in toks):
+        mut = set(decl.scalars) | set(decl.ints) if mutable is None else set(mutable)
+        stateful_ids = mut | set(decl.vectors) | set(local_types) | {n for (_, n, _) in args} | set(all_method_cnames)
+        out = []
+        i = 0
+        renames = {}
+        const_statics = set()        # SLc statics: constants, so a later static initialised from them is constant too
+        while i < len(toks):
+            k, v = toks[i]
+            if v in ('static', 'const') and any(toks[j][1] == 'static' for j in range(i, min(i + 2, len(toks)))) and v != 'Sc':
+                j = i
+                quals = []
+                while toks[j][1] in ('static', 'const'):
+                    quals.append(toks[j][1])
+                    j += 1
+                if 'static' not in quals:
+                    out.append(toks[i]); i += 1
+                    continue
+                if toks[j][1] not in ('Sc', 'int') or toks[j + 1][0] != 'id' or toks[j + 2][1] != '=':
+                    raise ExtractionBreak('%s: function-local static of a shape outside rule SL near: %s' % (fname, ' '.join(t[1] for t in toks[i:i + 8])))
+                ty, name = toks[j][1], toks[j + 1][1]
+                e = j + 3
+                depth = 0
+                while toks[e][1] != ';' or depth:
+                    if toks[e][1] == ',' and depth == 0:
+                        raise ExtractionBreak('%s: function-local static with several declarators (rule SL)' % fname)
+                    depth += toks[e][1] in ('(', '[') and 1 or 0
+                    depth -= toks[e][1] in (')', ']') and 1 or 0
+                    e += 1
+                init = toks[j + 3:e]
+                dep = sorted({tv for tk, tv in init if tk == 'id' and ((tv in stateful_ids and tv not in const_statics) or renames.get(tv))})
+                if not dep:
+                    out += [t_ for t_ in toks[i:e + 1] if t_[1] != 'static']
+                    hit('SLc')
+                    const_statics.add(name)
+                    notes.append('function-local static %s: initialiser is state-independent, treated as an ordinary local (rule SLc)' % name)
+                else:
+                    g = '%s__%s' % (fname, name)
+                    renames[name] = g
+                    local_types.pop(name, None)
+                    out += [('id', 'if'), ('op', '('), ('op', '!'), ('id', g + '__init'), ('op', ')'), ('op', '{'), ('id', g), ('op', '=')] + \
+                           [(tk, renames.get(tv, tv) if tk == 'id' else tv) for tk, tv in init] + \
+                           [('op', ';'), ('id', g + '__init'), ('op', '='), ('num', '1'), ('op', ';'), ('op', '}')]
+                    hit('SLs')
+                    notes.append('function-local static %s initialised from %s: persistent state outside the object (rule SLs), arbitrary on entry' % (name, dep))
+                    if statics_out is not None:
+                        statics_out.append((g, ty, name, dep))
+                    extra_ids = list(extra_ids) + [g, g + '__init']
+                i = e + 1
+                continue
+            if k == 'id' and v in renames:
+                out.append(('id', renames[v]))
+            else:
+                out.append(toks[i])
+            i += 1
+        toks = out
+
     # ---- final vetting: every identifier must be known
     known = set(C_KEYWORDS) | PRELUDE_IDS | set(decl.scalars) | set(decl.ints) | set(decl.vectors) | \
         {v + '_size' for v in decl.vectors} | {v + '_size_r' for v in decl.vectors} | set(local_types) | {n for (_, n, _) in args} | set(all_method_cnames) | \
@@ -813,6 +878,12 @@ def extract_class(src_path, header_path, cls, skip=('init_var',), only=None, ext
         raise ExtractionBreak('no member functions of %s found in %s' % (cls, src_path))
     cnames = set()
     parsed = []
+    # members that can change during the life of an object: registered parameters (set_var) and anything a member function assigns;
+    # the rest is set by the constructor only (e.g. PI) -- used by rule SL
+    mutable = set(re.findall(r'register_var\s*\(\s*"\w+"\s*,\s*&\s*(?:this\s*->\s*)?(\w+)', src))
+    for ret, name, argtext, body in raw:
+        if name != cls and not name.startswith('~'):
+            mutable |= set(re.findall(r'(?<![\w.>])(?:this\s*->\s*)?(\w+)\s*(?:=(?!=)|\+=|-=|\*=|/=|\+\+|--)', body)) & (set(decl.scalars) | set(decl.ints))
     for ret, name, argtext, body in raw:
         if name == cls or name.startswith('~'):
             continue           # constructor / destructor: C11 unit
@@ -838,7 +909,7 @@ def extract_class(src_path, header_path, cls, skip=('init_var',), only=None, ext
         f.sha = hashlib.sha256(body.encode()).hexdigest()
         f.body_c, f.hits, f.notes, f.writes_registered, f.calls = rewrite_body(
             body, cls, decl, cname, args, cnames, list(extra_ids) + ['ghost_' + g for g in (ghost_capture or {}).get(cname, ())],
-            ghost_capture=(ghost_capture or {}).get(cname, ()))
+            ghost_capture=(ghost_capture or {}).get(cname, ()), mutable=mutable, statics_out=f.statics)
         funcs.append(f)
     return decl, funcs
 
@@ -859,6 +930,9 @@ def render_unit(cls, decl, funcs, spec_include, prelude='real.h', defines=()):
         o.append('#define VF_VECMAX 8')
         o.append('Sc %s[VF_VECMAX]; int %s_size; Sc %s_size_r;   /* length as int and as its real-valued twin (contracts require them equal) */' % (v, v, v))
     o.append('#define VF_SETVAR(n, v) (n = (v))')
+    for f in funcs:
+        for g, ty, name, dep in getattr(f, 'statics', []):
+            o.append('%s %s; int %s__init;   /* rule SLs: function-local static `%s` of %s (process-wide state; arbitrary on entry) */' % (ty, g, g, name, f.cname))
     o.append('#include "jets.h"')
     for f in funcs:
         o.append('%s %s(%s);' % (f.ret, f.cname, sig(f)))
